@@ -169,8 +169,8 @@ def _path_tail(p):
 
 def match_value(pat, v):
     """does the value expression v match pat?  [(binding pattern, value)..] if certainly yes, False if certainly not, None if unknown"""
-    while pat.get("k") == "pref":
-        pat = pat["sub"]
+    while pat.get("k") in ("pref", "pderef"):
+        pat = pat["pat"]
     k = pat.get("k")
     if k == "pwild":
         return []
@@ -401,8 +401,8 @@ def opt_elim(n):
     if arms and len(arms) == 2:
         some = none = None
         for pat, body in arms:
-            while pat.get("k") == "pref":
-                pat = pat["sub"]
+            while pat.get("k") in ("pref", "pderef"):
+                pat = pat["pat"]
             if pat.get("k") == "pvariant" and pat["path"].endswith("Option::Some") and len(pat["subs"]) == 1:
                 some = (pat["subs"][0], body)
             elif pat.get("k") == "pwild" or (pat.get("k") in ("pvariant", "pconst") and pat.get("path", "").endswith("Option::None")):
@@ -459,8 +459,8 @@ def enum_dispatch(n, lid, enum_prefix):
             if "guard" in arm:
                 return None
             for alt in pat_alts(arm["pat"]):
-                while alt.get("k") == "pref":
-                    alt = alt["sub"]
+                while alt.get("k") in ("pref", "pderef"):
+                    alt = alt["pat"]
                 if alt.get("k") in ("pconst", "pvariant") and alt.get("path", "").startswith(enum_prefix) and not alt.get("subs"):
                     out[alt["path"][len(enum_prefix):]] = arm["body"]
                 elif alt.get("k") in ("pwild", "pbind"):
@@ -497,3 +497,107 @@ def built_by_loop(ix, defs, vid):
     if any(x.get("k") in ("break", "continue", "return") for x in walk(lp["body"])):
         return None
     return lp["iter"], lp["pat"], pu["args"][0], lp
+
+
+ITER_ADAPTORS = ("map", "for_each", "filter_map", "flat_map", "inspect", "try_for_each")
+
+
+def iter_context(ix, node):
+    """innermost per-element context around node: a `for` loop or the closure of an iterator adaptor.
+    {"kind": "for"|"closure", "src": iterated expression, "pat": element pattern, "body": body, "node": loop / closure, "via": adaptor name}"""
+    prev = node
+    p = ix.parent.get(id(node))
+    while p is not None:
+        k = p.get("k")
+        if k == "for" and (prev is p["body"] or contains(p["body"], node)):
+            return {"kind": "for", "src": p["iter"], "pat": p["pat"], "body": p["body"], "node": p, "via": "for"}
+        if k in ("while", "loop"):
+            return {"kind": k, "src": None, "pat": None, "body": p["body"], "node": p, "via": k}
+        if k == "closure":
+            q = ix.parent.get(id(p))
+            while q is not None and q.get("k") == "ref":
+                q = ix.parent.get(id(q))
+            if q is not None and q.get("k") == "mcall" and q["name"] in ITER_ADAPTORS and any(peel(a) is p for a in q["args"]) and len(p["params"]) == 1:
+                return {"kind": "closure", "src": q["recv"], "pat": p["params"][0], "body": p["body"], "node": p, "via": q["name"], "call": q}
+            return {"kind": "other-closure", "src": None, "pat": None, "body": p["body"], "node": p, "via": None}
+        prev = p
+        p = ix.parent.get(id(p))
+    return None
+
+
+def _diverges(b):
+    if b.get("ty") == "!":
+        return True
+    t = b
+    while t.get("k") in ("blockexpr", "block"):
+        blk = t["b"] if t.get("k") == "blockexpr" else t
+        if "tail" in blk:
+            t = blk["tail"]
+        elif blk["stmts"]:
+            t = blk["stmts"][-1]
+            if t.get("k") == "semi":
+                t = t["e"]
+        else:
+            return False
+    return t.get("k") in ("return", "continue", "break") or t.get("ty") == "!"
+
+
+def path_conditions(ix, node, upto=None):
+    """conditions known to hold when node executes, as [(expression, polarity)]: enclosing if branches and the negations of
+    earlier diverging guards (`if c { continue }`, `if c { return .. }`) in the enclosing blocks, up to the node `upto` (default: function)."""
+    out = []
+
+    def add(c, pol):
+        c = resolve(c)
+        if c.get("k") == "unary" and c["op"] == "!":
+            add(c["e"], not pol)
+        elif c.get("k") == "binary" and c["op"] == "&&" and pol:
+            add(c["l"], True)
+            add(c["r"], True)
+        elif c.get("k") == "binary" and c["op"] == "||" and not pol:
+            add(c["l"], False)
+            add(c["r"], False)
+        else:
+            out.append((c, pol))
+    child = node
+    p = ix.parent.get(id(node))
+    while p is not None and p is not upto:
+        k = p.get("k")
+        if k == "if":
+            if child is p["then"] or contains(p["then"], node):
+                add(p["cond"], True)
+            elif "else" in p and (child is p["else"] or contains(p["else"], node)):
+                add(p["cond"], False)
+        elif k == "block":
+            for s_ in p["stmts"]:
+                if s_ is child or contains(s_, node):
+                    break
+                e = s_["e"] if s_.get("k") == "semi" else s_
+                if e.get("k") == "if" and "else" not in e and _diverges(e["then"]):
+                    add(e["cond"], False)
+        child = p
+        p = ix.parent.get(id(p))
+    return out
+
+
+def elementwise(ix, defs, e):
+    """a collection expression built element by element from a source: `SRC.map(|pat| E).collect()` (with `?`), or a local
+    filled by a loop (built_by_loop): {"src", "pat", "elem", "scope"} or None"""
+    e0 = strip_try(e)
+    if e0.get("k") == "local":
+        bl = built_by_loop(ix, defs, e0["id"])
+        if bl is not None:
+            return {"src": bl[0], "pat": bl[1], "elem": bl[2], "scope": bl[3], "form": "loop"}
+        init = simple_let_init(defs, e0["id"])
+        if init is None:
+            return None
+        e0 = strip_try(init)
+    base, ms = chain(e0)
+    names = [m[0] for m in ms]
+    if names and names[-1] == "collect" and "map" in names:
+        i = names.index("map")
+        cl = resolve(ms[i][1][0])
+        if cl.get("k") == "closure" and len(cl["params"]) == 1 and names[i + 1:] == ["collect"]:
+            src = ms[i][2]["recv"]
+            return {"src": src, "pat": cl["params"][0], "elem": cl["body"], "scope": cl, "form": "map", "pre": names[:i]}
+    return None
